@@ -18,6 +18,8 @@ import (
 	"sort"
 	"strconv"
 	"strings"
+	"sync/atomic"
+	"time"
 
 	"github.com/git-lfs/git-lfs/v3/verifx/gitx"
 )
@@ -98,22 +100,28 @@ func (b *batch) fail(format string, a ...interface{}) {
 }
 
 func newBatch(w *gitx.World, repo string) *batch {
-	ctx, cf := context.WithTimeout(context.Background(), 2*gitx.CmdTimeout)
-	cmd := exec.CommandContext(ctx, "git", "cat-file", "--batch")
-	cmd.Dir = repo
-	cmd.Env = w.Env()
-	in, err := cmd.StdinPipe()
-	if err != nil {
-		toolFail("cat-file pipe: %v", err)
+	var lastErr error
+	for try := 0; try < 4; try++ {
+		ctx, cf := context.WithTimeout(context.Background(), 2*gitx.CmdTimeout)
+		cmd := exec.CommandContext(ctx, "git", "cat-file", "--batch")
+		cmd.Dir = repo
+		cmd.Env = w.Env()
+		in, err1 := cmd.StdinPipe()
+		out, err2 := cmd.StdoutPipe()
+		if err1 == nil && err2 == nil {
+			if err := cmd.Start(); err == nil {
+				return &batch{cmd: cmd, in: in, out: bufio.NewReaderSize(out, 1<<16), cf: cf, ctx: ctx}
+			} else {
+				lastErr = err
+			}
+		} else {
+			lastErr = fmt.Errorf("pipe: %v %v", err1, err2)
+		}
+		cf()
+		atomic.AddInt64(&execRetries, 1)
+		time.Sleep(time.Duration(300*(try+1)) * time.Millisecond)
 	}
-	out, err := cmd.StdoutPipe()
-	if err != nil {
-		toolFail("cat-file pipe: %v", err)
-	}
-	if err := cmd.Start(); err != nil {
-		toolFail("cat-file start: %v", err)
-	}
-	return &batch{cmd: cmd, in: in, out: bufio.NewReaderSize(out, 1<<16), cf: cf, ctx: ctx}
+	panic(toolFailure{msg: "git cat-file --batch could not be started: " + lastErr.Error(), timedOut: true})
 }
 
 func (b *batch) close() {
@@ -227,7 +235,7 @@ func takeSnap(w *gitx.World, repo string) *snap {
 	s := &snap{repo: repo, refs: map[string]refInfo{}, commits: map[string]*commitInfo{}, tags: map[string]*tagInfo{},
 		files: map[string]map[string]entry{}, blobs: map[string][]byte{}, logic: map[string]logicalBlob{}, badObj: map[string]string{}}
 	s.gitdir = strings.TrimSpace(git(w, repo, "rev-parse", "--absolute-git-dir"))
-	r := w.Git(repo, "symbolic-ref", "-q", "HEAD")
+	r := runR(w, repo, nil, nil, "git", "symbolic-ref", "-q", "HEAD")
 	checkTimeout(r)
 	if r.OK() {
 		s.head = strings.TrimSpace(r.Out)
@@ -325,10 +333,32 @@ func checkTimeout(r gitx.Res) {
 	if r.TimedOut {
 		panic(toolFailure{msg: "git timed out", timedOut: true})
 	}
+	if r.Code == -2 {
+		// gitx reports exit=-2 when the child could not be started or waited for (fork/exec EAGAIN/ENOMEM under load,
+		// "WaitDelay expired"): nothing was observed, so the case is inconclusive, never a verdict
+		panic(toolFailure{msg: "subprocess could not be started (exec failure after retries)", timedOut: true})
+	}
 }
 
+// runR runs a subprocess and retries when it could not be started at all (exit=-2 of gitx: fork/exec failure under
+// load).  Only used for idempotent commands.
+func runR(w *gitx.World, dir string, stdin []byte, env []string, name string, args ...string) gitx.Res {
+	var r gitx.Res
+	for try := 0; try < 4; try++ {
+		r = w.RunIn(dir, stdin, env, name, args...)
+		if r.Code != -2 || r.TimedOut {
+			return r
+		}
+		atomic.AddInt64(&execRetries, 1)
+		time.Sleep(time.Duration(300*(try+1)) * time.Millisecond)
+	}
+	return r
+}
+
+var execRetries int64
+
 func git(w *gitx.World, repo string, args ...string) string {
-	r := w.Git(repo, args...)
+	r := runR(w, repo, nil, nil, "git", args...)
 	checkTimeout(r)
 	if !r.OK() {
 		toolFail("git %v in %s: %s", args, repo, r)
@@ -509,7 +539,7 @@ func pathSelOracle(w *gitx.World, scratch string, key string, include, exclude [
 	if err := os.WriteFile(filepath.Join(dir, ".gitattributes"), a.Bytes(), 0644); err != nil {
 		toolFail("%v", err)
 	}
-	r := w.RunIn(dir, []byte(strings.Join(paths, "\x00")+"\x00"), nil, "git", "check-attr", "--stdin", "-z", "c12inc", "c12exc")
+	r := runR(w, dir, []byte(strings.Join(paths, "\x00")+"\x00"), nil, "git", "check-attr", "--stdin", "-z", "c12inc", "c12exc")
 	checkTimeout(r)
 	if !r.OK() {
 		toolFail("check-attr: %s", r)
@@ -543,7 +573,7 @@ func lfsTracked(w *gitx.World, scratch string, s *snap, commit string) map[strin
 	os.Remove(idx.Name())
 	defer os.Remove(idx.Name())
 	env := []string{"GIT_INDEX_FILE=" + idx.Name()}
-	r := w.GitE(s.repo, env, "read-tree", commit)
+	r := runR(w, s.repo, nil, env, "git", "read-tree", commit)
 	checkTimeout(r)
 	if !r.OK() {
 		toolFail("read-tree: %s", r)
@@ -565,7 +595,7 @@ func lfsTracked(w *gitx.World, scratch string, s *snap, commit string) map[strin
 		os.MkdirAll(wt, 0755)
 		args = append([]string{"--work-tree=" + wt}, args...)
 	}
-	r = w.RunIn(s.repo, []byte(strings.Join(paths, "\x00")+"\x00"), env, "git", args...)
+	r = runR(w, s.repo, []byte(strings.Join(paths, "\x00")+"\x00"), env, "git", args...)
 	checkTimeout(r)
 	if !r.OK() {
 		toolFail("check-attr --cached: %s", r)
